@@ -248,6 +248,114 @@ REGRESSION = ["a/", "/", "//", "self::node()[1]/", "a/|b", "last()", "foo()", "a
               "evaluate::a", "__class__::a", "ancestor_or_self::a", "ancestor_or-self::a"]
 
 
+# names that are attributes / methods of an Axis object (or of every object), and underscore spellings of the real
+# axes: Axis(name) must accept the eleven XPath axis names and nothing else (finding C16-attribute-as-axis, repaired)
+NOT_AN_AXIS = ["evaluate", "generator", "__eq__", "__init__", "__class__", "__dict__", "__slots__", "__module__", "__repr__",
+               "__hash__", "__doc__", "__new__", "__str__", "__getattribute__", "__reduce__", "__sizeof__", "__ne__",
+               "ancestor_or_self", "descendant_or_self", "following_sibling", "preceding_sibling", "ancestor_or-self",
+               "Child", "SELF", "attribute", "namespace", "_names", "x-y"]
+MALFORMED_AXES = ["%s::%s" % (n, t) for n in NOT_AN_AXIS for t in ("a", "node()", "*")] + \
+    ["a/%s::b" % n for n in NOT_AN_AXIS[:12]] + ["//%s::*[1]" % n for n in NOT_AN_AXIS[:12]]
+
+
+def rejected_everywhere(ctx):
+    """fixed, seed-independent: every string of the regression corpus and every `<not an axis>::test` must be rejected
+    with XPathParsingError by parse() AND by NodeBase.xpath() (the second observation point of the property): neither
+    may return, and no other exception type may escape"""
+    doc = impl.Document('<r xmlns:p="urn:p"><a k="v"><b/>x</a><p:a/><!--c--></r>')
+    for s in REGRESSION + MALFORMED_AXES:
+        case = {"expression": s, "family": "rejected-everywhere"}
+        r = real_outcome(s)
+        ctx.count(1, "rejected/parse/" + (r[0] if r[0] != "crash" else "crash:" + r[1]))
+        if r[0] in ("crash", "timeout") or (r[0] == "xpe" and r[5]):
+            judge(ctx, case, r)
+        elif r[0] == "ok":
+            ctx.fail("parse(%r) returns an expression; it is not an XPath expression of the supported language "
+                     "(regression corpus of the repaired findings: XPathParsingError expected)" % s, case)
+        for node in (doc.root, doc.root[0]):
+            try:
+                res = node.xpath(s)
+                what = "returned %d nodes" % len(list(res))
+            except XPathParsingError:
+                ctx.count(1, "rejected/xpath/xpe")
+                continue
+            except Exception as e:  # noqa: BLE001
+                what = "raised %s" % type(e).__name__
+            ctx.count(1, "rejected/xpath/" + what.split()[0])
+            ctx.fail("NodeBase.xpath(%r) %s instead of raising XPathParsingError" % (s, what), dict(case, via="xpath"))
+
+
+INDEPENDENCE_CHILD = r"""
+import sys, json
+sys.setrecursionlimit(10000)
+from _delb.xpath import parse
+from _delb.exceptions import XPathParsingError
+import xpath_ast
+def outcome(f, s):
+    try:
+        return ["ok", xpath_ast.enc_ast(f(s))]
+    except XPathParsingError as e:
+        return ["xpe", e.position, e.message, type(e).__name__]
+    except BaseException as e:
+        return ["crash", type(e).__name__]
+for s in json.load(sys.stdin):
+    print(json.dumps([s, outcome(parse.__wrapped__, s), outcome(parse.__wrapped__, s), outcome(parse, s), outcome(parse, s)]),
+          flush=True)
+"""
+
+
+def independence_inputs():
+    """fixed, seed-independent: every registered function with 0..4 arguments (most of them a wrong number), twice in
+    different surroundings, so that a later string uses a function / argument count an earlier one was rejected or
+    accepted with; then the regression corpus and the valid expressions"""
+    from _delb.plugins import plugin_manager
+    out = []
+    for name in sorted(plugin_manager.xpath_functions) + ["foo"]:
+        for k in range(5):
+            args = ",".join(["@x", "1", "'s'", "@y", "2"][:k])
+            out.append("//a[%s(%s)]" % (name, args))
+            out.append("b[@k and %s(%s)]" % (name, ",".join(["'t'", "@z", "3", "4", "@w"][:k])))
+            out.append("//a[%s(%s)]" % (name, args) + "/c")
+    return out + REGRESSION + VALID + MALFORMED_AXES[:20]
+
+
+def history_independence(ctx):
+    """parsing is deterministic and independent of what was parsed before: in two fresh interpreters the same fixed list
+    is parsed in opposite orders, every string four times (twice uncached through parse.__wrapped__, twice through the
+    lru_cache); all eight outcomes of a string must be the same.  (State that survives parse.cache_clear(), e.g. a
+    module-level memo, cannot be seen by comparing within this process, where earlier phases have already run.)"""
+    import subprocess
+    inputs = independence_inputs()
+    env = dict(os.environ, PYTHONPATH=common.REPO + os.pathsep + os.path.join(common.VERIF, "harness"), PYTHONHASHSEED="0")
+    seen = {}
+    for label, order in (("forward", inputs), ("backward", inputs[::-1])):
+        try:
+            p = subprocess.run([common.PY, "-c", INDEPENDENCE_CHILD], input=json.dumps(order), capture_output=True,
+                               text=True, env=env, timeout=300)
+        except subprocess.TimeoutExpired:
+            ctx.fail("parsing the fixed list did not finish within 300 s", {"family": "independence", "order": label})
+            return
+        lines = [l for l in p.stdout.splitlines() if l.startswith("[")]
+        if len(lines) != len(order):
+            ctx.mismatch("history independence child", {"order": label, "stderr": p.stderr[-600:], "lines": len(lines)})
+            return
+        for pos, line in enumerate(lines):
+            rec = json.loads(line)
+            s, outs = rec[0], rec[1:]
+            ctx.count(1, "independence/" + outs[0][0])
+            for name, o in zip(("first uncached parse", "second uncached parse", "first cached parse", "second cached parse"),
+                               outs):
+                key = (label, name)
+                if s in seen and seen[s][1] != o:
+                    ctx.fail("parse(%r) depends on what was parsed before: %s in the %s run gives %s, %s in the %s run gave %s"
+                             % (s, name, label, str(o)[:120], seen[s][0][1], seen[s][0][0], str(seen[s][1])[:120]),
+                             {"expression": s, "family": "independence", "order": label, "index": pos,
+                              "parsed_before": order[max(0, pos - 6):pos]})
+                    break
+                seen.setdefault(s, (key, o))
+    ctx.nontrivial_case(("independence", len(inputs)))
+
+
 def replay_open(f):
     return False             # no open finding
 
@@ -656,6 +764,10 @@ def run(ctx, args):
         case = rep.get("case")
         if case and case.get("family") == "int-limit":
             ambient_int_limit(ctx)
+        elif case and case.get("family") == "independence":
+            history_independence(ctx)
+        elif case and case.get("family") == "rejected-everywhere":
+            rejected_everywhere(ctx)
         elif case and "expression" in case:
             check_cases(ctx, [(case.get("family", "replay"), case["expression"])])
         return ctx.finish("replay of " + args.replay, replay_open=replay_open)
@@ -682,6 +794,8 @@ def run(ctx, args):
         # parse() does not come back on some input: do not feed this process arbitrary strings
         return ctx.finish("termination probe only (a parse did not terminate; the other phases were skipped)",
                           replay_open=replay_open)
+    history_independence(ctx)
+    rejected_everywhere(ctx)
     check_cases(ctx, cases)
     cache_half(ctx, 40 if quick else 600, 120)
     ambient_int_limit(ctx)
